@@ -235,6 +235,8 @@ func checkC17(c *Ctx) {
 	checkResponsePrecedence(c, pk)
 	checkLoopTotality(c, "C17.R7.loop-totality", pk, "codescan", 40, codescanLoopExits)
 	checkTypeOfNil(c, "C17.R1.typeof-nil", pk)
+	checkPathRequiredLast(c, "C17.R6.path-required", pk)
+	checkBuilderFields(c, "C17.R6.builder-fields", pk)
 	checkArgumentRoles(c, "C17.R6.argument-roles", pk, "codescan", 3)
 	checkAliasExpansionGuard(c, "C17.R1.alias-recursion", pk)
 	checkModelsRescanned(c, "C17.R8.models-rescanned", pk)
@@ -1051,4 +1053,141 @@ func checkAliasExpansionGuard(c *Ctx, rule string, pk *packages.Package) {
 	if n == 0 {
 		c.Unk(rule, "codescan.schemaBuilder.buildFromType › alias expansion arm", c.posOf(pk, fd.Pos()), "no arm testing Assign.IsValid() and recursing on Underlying() found")
 	}
+}
+
+
+// checkPathRequiredLast: Swagger 2.0 wants every path parameter required; the scanner forces it —
+// which only holds if the store comes after the field's doc comment (where `required: false` can
+// be written) has been parsed.
+func checkPathRequiredLast(c *Ctx, rule string, pk *packages.Package) {
+	c.Rule(rule, "parameterBuilder.buildFromStruct forces Required for `in: path` after the field's annotations have been parsed", 1)
+	fd := load.FuncDecl(pk, "parameterBuilder.buildFromStruct")
+	if fd == nil {
+		c.Anchor(rule, "codescan.parameterBuilder.buildFromStruct", "not found")
+		return
+	}
+	info := pk.TypesInfo
+	var parsePos, storePos token.Pos
+	goan.WalkGuards(info, fd.Body, func(n ast.Node, guards []goan.Lit, _ []ast.Stmt) {
+		switch x := n.(type) {
+		case *ast.AssignStmt:
+			if len(x.Lhs) == 1 && len(x.Rhs) == 1 && goan.LastSel(x.Lhs[0]) == "Required" && goan.IsIdent(x.Rhs[0], "true") {
+				for _, g := range guards {
+					if strings.Contains(goan.ExprString(g.E), `"path"`) && g.Pos {
+						storePos = x.Pos()
+					}
+				}
+			}
+		}
+	})
+	ast.Inspect(fd.Body, func(n ast.Node) bool {
+		if call, ok := n.(*ast.CallExpr); ok && len(call.Args) == 1 && goan.LastSel(call.Fun) == "Parse" && goan.LastSel(call.Args[0]) == "Doc" {
+			if call.Pos() > parsePos {
+				parsePos = call.Pos()
+			}
+		}
+		return true
+	})
+	c.Check(parsePos.IsValid() && storePos.IsValid() && parsePos < storePos, rule, "codescan.parameterBuilder.buildFromStruct › path ⇒ required has the last word", c.posOf(pk, storePos),
+		"the store follows Parse(<field>.Doc)", fmt.Sprintf("Required is forced for path parameters at %s, before the field's annotations are parsed at %s (or one of the two is missing): `required: false` on a path parameter survives and the document is invalid", c.posOf(pk, storePos), c.posOf(pk, parsePos)))
+}
+
+// checkBuilderFields: the builders of the scanner are plain structs filled by composite literals; a
+// field that the builder's methods read and never assign must be set by every literal that
+// constructs it (its zero value silently disables what the field feeds).
+func checkBuilderFields(c *Ctx, rule string, pk *packages.Package) {
+	c.Rule(rule, "every keyed composite literal of a scanner builder struct sets the fields its methods read but never assign", 9)
+	info := pk.TypesInfo
+	// fields read / assigned through a receiver, per struct type
+	reads := map[*types.Named]map[string]bool{}
+	writes := map[*types.Named]map[string]bool{}
+	for _, fd := range load.AllFuncs(pk) {
+		if fd.Recv == nil || len(fd.Recv.List) == 0 || len(fd.Recv.List[0].Names) == 0 {
+			continue
+		}
+		recv := info.Defs[fd.Recv.List[0].Names[0]]
+		if recv == nil {
+			continue
+		}
+		rt := recv.Type()
+		if p, ok := rt.(*types.Pointer); ok {
+			rt = p.Elem()
+		}
+		named, ok := rt.(*types.Named)
+		if !ok || !strings.HasSuffix(named.Obj().Name(), "Builder") {
+			continue
+		}
+		if reads[named] == nil {
+			reads[named], writes[named] = map[string]bool{}, map[string]bool{}
+		}
+		assigned := map[*ast.SelectorExpr]bool{}
+		ast.Inspect(fd.Body, func(n ast.Node) bool {
+			if as, ok := n.(*ast.AssignStmt); ok {
+				for _, l := range as.Lhs {
+					if se, ok := l.(*ast.SelectorExpr); ok && identIs(info, se.X, recv) {
+						writes[named][se.Sel.Name] = true
+						assigned[se] = true
+					}
+				}
+			}
+			return true
+		})
+		ast.Inspect(fd.Body, func(n ast.Node) bool {
+			if se, ok := n.(*ast.SelectorExpr); ok && identIs(info, se.X, recv) && !assigned[se] {
+				if sel := info.Selections[se]; sel != nil && sel.Kind() == types.FieldVal {
+					reads[named][se.Sel.Name] = true
+				}
+			}
+			return true
+		})
+	}
+	n := 0
+	for _, fd := range load.AllFuncs(pk) {
+		fd := fd
+		ast.Inspect(fd.Body, func(nd ast.Node) bool {
+			cl, ok := nd.(*ast.CompositeLit)
+			if !ok || len(cl.Elts) == 0 {
+				return true
+			}
+			t := info.TypeOf(cl)
+			named, ok := t.(*types.Named)
+			if !ok || reads[named] == nil {
+				return true
+			}
+			set := map[string]bool{}
+			keyed := false
+			for _, e := range cl.Elts {
+				if kv, ok := e.(*ast.KeyValueExpr); ok {
+					keyed = true
+					if id, ok := kv.Key.(*ast.Ident); ok {
+						set[id.Name] = true
+					}
+				}
+			}
+			if !keyed {
+				return true
+			}
+			var missing []string
+			for f := range reads[named] {
+				if !writes[named][f] && !set[f] && builderFieldsNeverSet[named.Obj().Name()+"."+f] == "" {
+					missing = append(missing, f)
+				}
+			}
+			sort.Strings(missing)
+			// fields assigned right after construction through the variable (b.x = …) count as set
+			n++
+			c.Check(len(missing) == 0, rule, fmt.Sprintf("codescan.%s › %s{…}", load.FuncName(fd), named.Obj().Name()), c.posOf(pk, cl.Pos()), "sets every field its methods rely on",
+				fmt.Sprintf("the literal leaves %v unset, which the methods of %s read and never assign: the builder silently works without that input (e.g. the index of swagger:parameters structs — the operation then loses its parameters)", missing, named.Obj().Name()))
+			return true
+		})
+	}
+	if n == 0 {
+		c.Unk(rule, "codescan › builder literals", "", "no keyed composite literal of a *Builder struct found")
+	}
+}
+
+
+// builderFieldsNeverSet: fields that no constructor sets, reviewed.
+var builderFieldsNeverSet = map[string]string{
+	"routesBuilder.parameters": "set by no constructor: the base list handed to newSetParams is empty by design (a route's parameters come from its own `Parameters:` section and from the swagger:parameters structs that name its operation id, merged afterwards)",
 }
